@@ -54,18 +54,15 @@ Definition carries (ty : gotype) (v : gnum) : bool :=
 
 (* ---- utils/cast/cast.go convertNumericToString ------------------------------------------------
      float64: FormatFloat(v,'f',-1,64)   float32: FormatFloat(float64(v),'f',-1,32)
-     int64: FormatInt   uint64: FormatUint   every other integer type T: strconv.Itoa(int(v))
+     int64: FormatInt   uint, uint64: FormatUint   every other integer type T: strconv.Itoa(int(v))
    'f' with precision -1 prints an integral float as its decimal digits (no point, no exponent).
-   int(v) of a uint at or above 2^63 wraps to a negative int. *)
-Definition wrap_int (z : Z) : Z :=
-  if (z <? 9223372036854775808)%Z then z else (z - 18446744073709551616)%Z.
+   (As found, uint went through strconv.Itoa(int(v)), which wraps at 2^63: repaired, finding F47.) *)
 
 Definition go_to_string (ty : gotype) (v : gnum) : bytes :=
   match v with
   | NumInt z =>
       match ty with
-      | GUint => k_dec_Z (wrap_int z)
-      | GUint64 => k_dec_N (Z.to_N z)
+      | GUint | GUint64 => k_dec_N (Z.to_N z)
       | _ => k_dec_Z z
       end
   | NumFrac t64 t32 =>
@@ -114,11 +111,11 @@ Definition num_value (v : gnum) : kvalue :=
   end.
 
 (* [prints_alike ty v]: ToString of this carrier prints the text Model/GroupKey.v gives the number.
-   Fails for a uint at or above 2^63 (int(v) wraps) and for a float32 whose float32 text ("1.1") is
-   not the text of the same number as a float64 ("1.100000023841858"). *)
+   Fails for a float32 whose float32 text ("1.1") is not the text of the same number as a float64
+   ("1.100000023841858"). *)
 Definition prints_alike (ty : gotype) (v : gnum) : bool :=
   match v with
-  | NumInt z => match ty with GUint => (z <? 9223372036854775808)%Z | _ => true end
+  | NumInt z => true
   | NumFrac t64 (Some t) => bytes_eqb t t64
   | NumFrac _ None => true
   end.
